@@ -3646,6 +3646,8 @@ static bool ts_query_cursor__first_in_progress_capture(
 
     TSNode node = array_get(captures, state->consumed_capture_count)->node;
     // (an empty node exactly at the start of the range does not precede it)
+    // Captures that follow the range are skipped as well, exactly as for
+    // finished matches in `ts_query_cursor_next_capture`.
     if (
       (
         ts_node_end_byte(node) <= self->included_range.start_byte &&
@@ -3654,7 +3656,9 @@ static bool ts_query_cursor__first_in_progress_capture(
       (
         point_lte(ts_node_end_point(node), self->included_range.start_point) &&
         point_lt(ts_node_start_point(node), self->included_range.start_point)
-      )
+      ) ||
+      ts_node_start_byte(node) >= self->included_range.end_byte ||
+      point_gte(ts_node_start_point(node), self->included_range.end_point)
     ) {
       state->consumed_capture_count++;
       i--;
